@@ -320,28 +320,28 @@ class QvmCode(BaseCode):
             ):
                 arg, = prev1.args
 
-                # Convert the argument to the dest type
+                # Convert the argument to the dest type, the way the
+                # machine does: the pushed value is first what a cell
+                # of the source type holds (a SINGLE 0.1 is not the
+                # DOUBLE 0.1), then converted.
+                src_type = expr.Type.from_type_char(prev1.type_char)
                 cur_type = expr.Type.from_type_char(cur.type_char)
-                if cur_type.is_integral and \
-                   isinstance(arg, float):
-                    # perform rounding first if casting from float to
-                    # integer
-                    arg = round(arg)
-
-                # Fold only if the value can fit in target type
-                # (otherwise we'll leave it and there will be a
-                # conversion error in run time)
-                if cur_type.can_hold(arg):
-                    cur_type = expr.Type.from_type_char(cur.type_char)
-                    arg = cur_type.py_type(arg)
-
-                    self._instrs[i-1] = QvmInstr(
-                        f'push{cur.type_char}', arg)
-
-                    del self._instrs[i]
-                    i -= 1
-                else:
+                try:
+                    arg = expr.convert_value(
+                        src_type.coerce(src_type.py_type(arg)),
+                        src_type, cur_type)
+                except (OverflowError, ValueError):
+                    # Fold only if the value can fit in target type
+                    # (otherwise we'll leave it and there will be a
+                    # conversion error in run time)
                     i += 1
+                    continue
+
+                self._instrs[i-1] = QvmInstr(
+                    f'push{cur.type_char}', arg)
+
+                del self._instrs[i]
+                i -= 1
 
                 continue
 
